@@ -162,6 +162,8 @@ def jobs(tier):
           Job("get_name_n3_small_table", job_names, dict(n=3, small_table=True), cost=60, timeout_s=3400)]
     if tier == "thorough":
         js.append(Job("get_name_n3", job_names, dict(n=3), cost=600, timeout_s=7000))
+    from vf.props import c02_text
+    js += c02_text.jobs(tier)
     return js
 
 
